@@ -138,7 +138,9 @@ type WireReader struct {
 }
 
 func (r *WireReader) nextSeg() bool {
-	if r.seg < len(r.wire) && r.pos >= len(r.wire[r.seg]) {
+	// A wire may contain empty segments, also several in a row: move on until
+	// there is a byte to read (or the wire ends)
+	for r.seg < len(r.wire) && r.pos >= len(r.wire[r.seg]) {
 		r.seg++
 		r.pos = 0
 	}
